@@ -38,9 +38,27 @@ pub fn install_panic_hook() {
                 } else {
                     "panic".to_string()
                 };
+                // a failure of the layout solver is attributed to the widget that asked for
+                // the split (the panic's own location is inside ratatui, whoever called it)
+                let via = if msg.contains("failed to split") {
+                    let bt = std::backtrace::Backtrace::force_capture().to_string();
+                    if bt.contains("get_columns_widths") {
+                        " [via table]".to_string()
+                    } else {
+                        let site = bt
+                            .lines()
+                            .find_map(|l| l.split("trippy_tui::frontend::render::").nth(1))
+                            .map_or_else(|| "unknown".to_string(), |r| {
+                                r.chars().take_while(|c| c.is_alphanumeric() || *c == '_' || *c == ':').collect()
+                            });
+                        format!(" [via {site}]")
+                    }
+                } else {
+                    String::new()
+                };
                 let _ = PANIC_INFO.try_with(|p| {
                     if let Ok(mut g) = p.try_borrow_mut() {
-                        *g = Some(format!("{loc}: {msg}"));
+                        *g = Some(format!("{loc}: {msg}{via}"));
                     }
                 });
             } else {
